@@ -1,7 +1,8 @@
 // Native bounded stand-in for the headline clause of C11 ("the intervals streamed by Ripser equal the barcode of the Rips
 // flag filtration computed through the simplex tree and persistent cohomology"), which no contract can reach here (the
 // reduction runs on heaps, hash maps and std::optional).  EVERY symmetric dissimilarity on 4 points with entries in
-// {1,2,3}, sampled ones on 5 and 6 points (VERIF_SEED), a few Euclidean clouds; every threshold among {none, each
+// {1,2,3} and in {0,1,2}, sampled ones on 5 and 6 points (VERIF_SEED), a few Euclidean clouds (one of 8 points with a class in
+// dimension 3); every threshold among {none, each
 // distinct distance, half the smallest}; dim_max = 0..n-2; moduli 2 and 3; input forms full, lower, upper, sparse
 // (and Euclidean for the clouds).  Zero-length intervals are dropped on both sides.
 // usage: ripser_sweep <seed> <tier> <shard> <nshards>     prints one JSON line
@@ -63,9 +64,14 @@ int main(int argc, char** argv) {
   unsigned long long rng = 0x9E3779B97F4A7C15ull * (unsigned long long)(seed * 131 + shard + 1); auto nextr = [&]() { rng ^= rng << 13; rng ^= rng >> 7; rng ^= rng << 17; return rng; };
   long job = 0;
   for (int code = 0; code < 729; code++) { if (job++ % nsh != shard) continue; Mat m(4, std::vector<value_t>(4, 0)); int q = code; for (int i = 0; i < 4; i++) for (int j = 0; j < i; j++) { m[i][j] = m[j][i] = 1 + q % 3; q /= 3; } all_forms("n4#" + std::to_string(code), m, nullptr); }
+  // the same with entries in {0,1,2}: distinct points at distance exactly 0 (zero-length edges; the sparse lookup keys on {j, 0})
+  for (int code = 0; code < 729; code++) { if (job++ % nsh != shard) continue; Mat m(4, std::vector<value_t>(4, 0)); int q = code; for (int i = 0; i < 4; i++) for (int j = 0; j < i; j++) { m[i][j] = m[j][i] = q % 3; q /= 3; } all_forms("n4z#" + std::to_string(code), m, nullptr); }
   for (int n : {2, 3}) for (int code = 0; code < (n == 2 ? 3 : 27); code++) { if (job++ % nsh != shard) continue; Mat m(n, std::vector<value_t>(n, 0)); int q = code; for (int i = 0; i < n; i++) for (int j = 0; j < i; j++) { m[i][j] = m[j][i] = 1 + q % 3; q /= 3; } all_forms("n" + std::to_string(n) + "#" + std::to_string(code), m, nullptr); }
   int samples = tier ? 600 : 60;
-  for (int s = 0; s < samples; s++) { if (job++ % nsh != shard) { for (int k = 0; k < 16; k++) nextr(); continue; } int n = 5 + (s % 2); int amax = 2 + nextr() % 5; Mat m(n, std::vector<value_t>(n, 0)); for (int i = 0; i < n; i++) for (int j = 0; j < i; j++) m[i][j] = m[j][i] = 1 + nextr() % amax; all_forms("n" + std::to_string(n) + "~" + std::to_string(s), m, nullptr); }
-  std::vector<std::vector<std::vector<value_t>>> clouds = {{{0, 0}, {1, 0}, {1, 1}, {0, 1}}, {{1, 0, 0}, {-1, 0, 0}, {0, 1, 0}, {0, -1, 0}, {0, 0, 1}, {0, 0, -1}}, {{0, 0}, {2, 0}, {4, 0}, {0, 2}, {2, 2}, {4, 2}}, {{0.3, 0.1}, {4.1, 0.4}, {5.2, 3.3}, {2.9, 5.7}, {-0.4, 3.9}, {2.2, 2.4}}};
+  for (int s = 0; s < samples; s++) { if (job++ % nsh != shard) { for (int k = 0; k < 16; k++) nextr(); continue; } int n = 5 + (s % 2); int amax = 2 + nextr() % 5; Mat m(n, std::vector<value_t>(n, 0)); for (int i = 0; i < n; i++) for (int j = 0; j < i; j++) m[i][j] = m[j][i] = (s % 3 == 2 ? 0 : 1) + nextr() % amax; all_forms("n" + std::to_string(n) + "~" + std::to_string(s), m, nullptr); }
+  std::vector<std::vector<std::vector<value_t>>> clouds = {{{0, 0}, {1, 0}, {1, 1}, {0, 1}}, {{1, 0, 0}, {-1, 0, 0}, {0, 1, 0}, {0, -1, 0}, {0, 0, 1}, {0, 0, -1}}, {{0, 0}, {2, 0}, {4, 0}, {0, 2}, {2, 2}, {4, 2}}, {{0.3, 0.1}, {4.1, 0.4}, {5.2, 3.3}, {2.9, 5.7}, {-0.4, 3.9}, {2.2, 2.4}},
+    // cross-polytope in R^4 (a 3-sphere: one class in dimension 3, needs dim_max >= 3) and in R^3 with a doubled point
+    {{1, 0, 0, 0}, {-1, 0, 0, 0}, {0, 1, 0, 0}, {0, -1, 0, 0}, {0, 0, 1, 0}, {0, 0, -1, 0}, {0, 0, 0, 1}, {0, 0, 0, -1}},
+    {{1, 0, 0}, {-1, 0, 0}, {0, 1, 0}, {0, -1, 0}, {0, 0, 1}, {0, 0, -1}, {0, 0, -1}}};
   for (size_t c = 0; c < clouds.size(); c++) { if (job++ % nsh != shard) continue; all_forms("cloud" + std::to_string(c), matrix_of(Euclid(std::vector<std::vector<value_t>>(clouds[c]))), &clouds[c]); }
   printf("{\"class\":\"ripser\",\"checked\":%ld,\"mismatches\":%ld,\"first\":[%s]}\n", total, bad, firsts.c_str()); return 0; }
